@@ -60,6 +60,17 @@ def collect(ctx, mode="acyclic", n_quick=400, n_thorough=20000, state=True):
     if err:
         res.disagreements.append({"harness-error": err[:2000]})
         return res, []
+    n_pjchain = 0
+    if mode == "acyclic" and not ctx.replay:
+        # the stress family of DESIGN 10.2 (projections over projections with value-dependent reads): a slice of it on
+        # every run, all ties included (values / executor sets / core model / state digests); `acyclic` itself
+        # already interleaves the `layered` (every 6th case) and `pjswitch` (every 12th) families
+        r2, err = ec.run_all(ctx, "pjchain", max(20, n_quick // 8), max(200, n_thorough // 10), SINGLE, state=state)
+        if err:
+            res.disagreements.append({"harness-error": err[:2000]})
+            return res, []
+        n_pjchain = sum(r["report"]["evaluations"] for r in r2)
+        results = results + r2
     an = [ec.analyse(r, SINGLE) for r in results]
     reps = [r["report"] for r in results]
     res.evaluations = sum(r["evaluations"] for r in reps)
@@ -70,6 +81,7 @@ def collect(ctx, mode="acyclic", n_quick=400, n_thorough=20000, state=True):
     dist = {}
     for r in reps:
         for k, v in r["distribution"].items(): dist[k] = dist.get(k, 0) + v
+    dist["cases_of_family_pjchain"] = n_pjchain
     dist["core_model_lines_compared"] = sum(a["core_lines"] for a in an)
     dist["cases_entirely_in_core_fragment"] = sum(a["core_cases"] for a in an)
     dist["cases_where_impl_violates_oracle"] = sum(len(a["impl_fail_cases"]) for a in an)
